@@ -269,6 +269,23 @@ def r_minmax(t, mapping):
             return t, n
 
 
+def r_cow_borrowed(t):
+    """R5: Cow::Borrowed(E) -> E  (only for functions that never build an owned value; the return type is
+    rewritten by a per-item RX rule)"""
+    out, i, n = [], 0, 0
+    while i < len(t):
+        if t[i:i + 4] == ["Cow", "::", "Borrowed", "("]:
+            close = _match_close(t, i + 3)
+            inner, k = r_cow_borrowed(t[i + 4:close])
+            out += inner
+            n += 1 + k
+            i = close + 1
+            continue
+        out.append(t[i])
+        i += 1
+    return out, n
+
+
 def r_replace(t, frm, to):
     """generic literal token-sequence replacement (per-item, listed in the overlay directive)"""
     out, i, n = [], 0, 0
@@ -293,6 +310,7 @@ DOC = {
     "R2c": "assert!/debug_assert! message arguments dropped (condition kept as an obligation)",
     "R3a": "2u32.pow(x.into()) -> pow2_u32(x) (external_body helper, assumed spec 2^x)",
     "R3b": "x.div_ceil(n) -> div_ceil_u32(x, n) (external_body helper, assumed spec ceil(x/n))",
+    "R5": "Cow::Borrowed(e) -> e, return type Cow<'a,[u8]> -> &'a [u8] (only on functions that only ever borrow)",
     "R6": "`v.drain(n..);` statement -> `v.truncate(n);`",
     "R7": "core::cmp::min/max and .min()/.max() -> monomorphic verified helpers (per item)",
     "R8": "size_of::<uN>() -> integer literal",
@@ -312,6 +330,9 @@ def apply_rules(t, extra=None):
         if kind == "R7":
             t, n = r_minmax(t, spec[1])
             fired["R7"] = fired.get("R7", 0) + n
+        elif kind == "R5":
+            t, n = r_cow_borrowed(t)
+            fired["R5"] = fired.get("R5", 0) + n
         elif kind == "RX":
             t, n = r_replace(t, spec[1], spec[2])
             fired["RX"] = fired.get("RX", 0) + n
